@@ -1,6 +1,7 @@
 """C02 Soundness against invalid witnesses: violated constraints are never accepted."""
 import json
 import vlib
+from checks import gadgets
 
 
 def run(chk):
@@ -23,6 +24,10 @@ def run(chk):
     for c in vlib.REAL_CURVES:
         rows = vlib.replay(chk, c, bad + extra, "c02")
         vlib.report_replay(chk, rows, "soundness")
+    # the repository's gadgets with false statements (not a permutation, value out of range, wrong sum): semantic violations, no hook needed
+    gad = [dict(p, expect_p="ok", expect_v="reject") for p, holds in gadgets.workload(chk.seed, q) if not holds]
+    for c in vlib.REAL_CURVES:
+        vlib.report_replay(chk, vlib.replay(chk, c, gad, "gadgets"), "soundness-gadget")
     # (B3) random programs with one violated constraint or gate on toy31723; TLC decides from the recorded calls whether the
     # assignment really is unsatisfying (IdealSoundness). An accepted one is re-run with fresh randomness: luck does not repeat.
     n = 300 if q else 5000
